@@ -174,3 +174,29 @@ def integer_point_arrays(env, cfg, ck):
     ck.true('shape', tuple(r.shape) == (3, 3))
     for j in range(3):
         ck.eq('col%d' % j, r[:, j], R @ np.array([P[0, j], P[1, j], P[2, j]]) + t, scale=200 + A.normsq(np, t))
+
+
+def _udq(env, sm, np, q, t):
+    """unit dual quaternion of the motion (R(q), t) from its two parts: real = q, dual = (0,t) (x) q / 2"""
+    real = sm.UnitQuaternion(np.array(q), norm=False, check=False)
+    dual = sm.Quaternion(0.5 * A.hamilton(np, [0] + list(t), q))
+    return sm.UnitDualQuaternion(real, dual)
+
+
+@contract('C06', targets=['spatialmath.DualQuaternion.DualQuaternion.__mul__', 'spatialmath.DualQuaternion.UnitDualQuaternion.__init__'])
+def unit_dual_quaternion_composition_acts_on_points(env, cfg, ck):
+    """(X*Y)*p = X*(Y*p) = R_X (R_Y p + t_Y) + t_X for unit dual quaternions X, Y over the whole group (any sign of the
+    scalar parts, rotations past a half turn included), with translations"""
+    np, sm = env.np, env.sm
+    qx, qy = env.unitvec('q', 4), env.unitvec('r', 4)
+    tx, ty = env.reals('s', 3), env.reals('t', 3)
+    X, Y = _udq(env, sm, np, qx, tx), _udq(env, sm, np, qy, ty)
+    p = env.reals('p', 3)
+    RX, RY = A.quat_to_R(np, qx), A.quat_to_R(np, qy)
+    want = RX @ (RY @ np.array(p) + np.array(ty)) + np.array(tx)
+    sc = pscale(np, tx, p) * (1 + A.normsq(np, ty))
+    ck.eq('single', ck.call(lambda: X * p), RX @ np.array(p) + np.array(tx), scale=sc)
+    XY = ck.call(lambda: X * Y)
+    ck.is_instance('class', XY, sm.UnitDualQuaternion)
+    ck.eq('(X*Y)*p', ck.call(lambda: XY * p), want, scale=sc)
+    ck.eq('X*(Y*p)', ck.call(lambda: X * (Y * p)), want, scale=sc)
